@@ -47,8 +47,8 @@ fn wire_pool() -> Vec<WireValue> {
     let f = |x: f64| Float64(x);
     vec![
         Null, Bool(false), Bool(true), Int32(-1), Int32(0), Int32(7), Int32(i32::MAX),
-        Int64(i64::MIN), Int64(-P53 - 1), Int64(-P53), Int64(-1), Int64(0), Int64(1), Int64(2), Int64(P53 - 1), Int64(P53), Int64(P53 + 1), Int64(P53 + 2), Int64(P53 + 3), Int64(i64::MAX - 1), Int64(i64::MAX),
-        f(0.0), f(-0.0), f(1.0), f(1.5), f(2.0), f(-1.0), f(9007199254740992.0), f(9007199254740994.0), f(-9007199254740992.0), f(9223372036854775808.0), f(-9223372036854775808.0),
+        Int64(i64::MIN), Int64(-P53 - 1), Int64(-P53), Int64(-1), Int64(0), Int64(1), Int64(2), Int64(P53 - 1), Int64(P53), Int64(P53 + 1), Int64(P53 + 2), Int64(P53 + 3), Int64(i64::MIN + 1), Int64(i64::MAX - 1023), Int64(i64::MAX - 1), Int64(i64::MAX),
+        f(0.0), f(-0.0), f(1.0), f(1.5), f(2.0), f(-1.0), f(9007199254740992.0), f(9007199254740994.0), f(-9007199254740992.0), f(9223372036854775808.0), f(-9223372036854775808.0), f(9223372036854774784.0), f(9223372036854777856.0), f(-9223372036854774784.0), f(-9223372036854777856.0),
         f(f64::INFINITY), f(f64::NEG_INFINITY), f(f64::NAN), f(f64::from_bits(0xfff8000000000001)), f(f64::MIN_POSITIVE / 2.0), f(f64::MAX),
         String("".into()), String("a".into()), String("ab".into()), String("b".into()), String("é".into()),
         Timestamp(-1), Timestamp(0), Timestamp(5),
@@ -70,14 +70,18 @@ fn col_value(ctx: &mut Ctx, profile: usize) -> WireValue {
         4 => String((0..ctx.below(3)).map(|_| *ctx.pick(&['a', 'b', 'é'])).collect()),
         5 => Float64(match ctx.below(6) { 0 => 0.0, 1 => -0.0, 2 => f64::INFINITY, 3 => f64::NEG_INFINITY, 4 => f64::from_bits(ctx.next()), _ => ctx.range(-4, 4) as f64 }),
         6 => match ctx.below(3) { 0 => Int32(ctx.range(-2, 5) as i32), 1 => Int64(ctx.range(-2, 5)), _ => Timestamp(ctx.range(-2, 5)) },
+        8 => match ctx.below(3) {                                                            // i64 range boundary, ints and floats (where `as i64` saturates)
+            0 => Float64(*ctx.pick(&[9223372036854775808.0f64, 9223372036854774784.0, 9223372036854777856.0, -9223372036854775808.0, -9223372036854774784.0, -9223372036854777856.0])),
+            _ => { let d = ctx.range(0, 3); if ctx.chance(1, 2) { Int64(i64::MAX - d) } else { Int64(i64::MIN + d) } }
+        },
         _ => { let p = wire_pool(); p[ctx.below(p.len())].clone() }                          // anything
     }
 }
 
 fn gen_query(ctx: &mut Ctx, op: &str) -> String {
     let arity = 1 + ctx.below(3);
-    let profiles: Vec<usize> = (0..arity).map(|_| ctx.below(8)).collect();
-    for p in &profiles { ctx.count(&format!("query.column-profile-{}", ["small-int", "int-float", "nan", "2^53", "string", "float-special", "int-widths-ts", "any"][*p])); }
+    let profiles: Vec<usize> = (0..arity).map(|_| ctx.below(10)).collect();
+    for p in &profiles { ctx.count(&format!("query.column-profile-{}", ["small-int", "int-float", "nan", "2^53", "string", "float-special", "int-widths-ts", "any", "i64-boundary", "any"][*p])); }
     let n = match ctx.below(10) { 0 => 0, 1 => 1, 2 => 2, 3..=6 => 2 + ctx.below(19), _ => 21 + ctx.below(if ctx.thorough { 40 } else { 30 }) };
     ctx.count(if n <= 20 { "query.rows<=20" } else { "query.rows>20" });
     let ragged = ctx.chance(1, 15);
@@ -146,6 +150,11 @@ pub fn gen(ctx: &mut Ctx) -> Vec<String> {
         let (a, b, c) = (ctx.pick(&opts).clone(), ctx.pick(&opts).clone(), ctx.pick(&opts).clone());
         out.push(format!("c35.cmp {} {} {}", w(&a), w(&b), w(&c))); ctx.count("cmp.sampled-triples");
     }
+    // every ordered pair of numeric pool values as a two-row answer sorted ascending and descending: any
+    // comparator error on a pair shows up as a mis-sorted page
+    for a in &num { for b in &num { if let (Some(a), Some(b)) = (a, b) {
+        out.push(format!("c35.query 0{} - - | {} ; {}", if ctx.chance(1, 2) { 'a' } else { 'd' }, wv_to_wire(a), wv_to_wire(b))); ctx.count("query.numeric-pair");
+    } } }
     // the documented witnesses, as queries
     out.push("c35.query 0a - - | f64:4008000000000000 ; f64:7ff8000000000000 ; f64:3ff0000000000000".into());
     out.push(format!("c35.query 0a - - | i64:{} ; f64:4340000000000000 ; i64:{}", P53 + 1, P53));
